@@ -11,6 +11,7 @@ import Scale.Ghost
 import Proofs.Wrappers
 import Proofs.HookTrace
 import Proofs.HookFacts
+import Proofs.Stack
 namespace Scale.C11
 open Scale
 
@@ -138,5 +139,15 @@ example : needDepth (Impl.decodeP (.seq .vec 24 (.seq .vec 1 (.prim .u8)))) [4, 
 example : needDepth (Impl.decodeP (.seq .vec 24 (.seq .vec 2 (.option (.prim .u8))))) [4, 4, 0] = 2 := by decide
 example : (decodeLimit 1 (.seq .vec 24 (.seq .vec 2 (.option (.prim .u8)))) [4, 4, 0]).1.isOk = false := by decide
 example : (decodeLimit 2 (.seq .vec 24 (.seq .vec 2 (.option (.prim .u8)))) [4, 4, 0]).1.isOk = true := by decide
+
+
+/-- A decoder that reads through a counting wrapper (a hand-written `Decode` measuring a field)
+    is limited exactly like one that does not: for every program, limit and input, the depth
+    limiter below the counter returns the same result and ends in the same state — every
+    `descend_ref` / `ascend_ref` reaches it. -/
+theorem depth_limit_unaffected_by_counting {α : Type} (L : Nat) (p : Prog α) (bs : Bytes) (c : Nat) :
+    (run (countedInput (depthInput L sliceInput)) p ((bs, 0), c)).1 = (run (depthInput L sliceInput) p (bs, 0)).1 ∧
+    (run (countedInput (depthInput L sliceInput)) p ((bs, 0), c)).2.1 = (run (depthInput L sliceInput) p (bs, 0)).2 :=
+  counted_transparent (depthInput L sliceInput) rfl p (bs, 0) c
 
 end Scale.C11
